@@ -293,6 +293,8 @@ def run(ctx):
     ctx.env["JDK_JAVA_OPTIONS"] = "-XX:ParallelGCThreads=2"
     # ---- 1. design level (in the background while the sandboxes are built; one MC run at a time)
     def design():
+        if ctx.replay:
+            return "not run for a replay"
         if ctx.quick():
             r = counted(ctx, tlc_bg(ctx, "Mounts", cfg=mc_cfg(2, "ContOptsMain", "EnvsOne"), workers=4, timeout=400).join())
             ctx.tlc_ok("Mounts MC (tables <= 2)", r)
@@ -400,6 +402,7 @@ def run(ctx):
     ctx.assumptions += [
         "kernel: a bind remount with MS_RDONLY makes the mount read-only for every modification the probe tries; cross-checked per sandbox (statvfs flag, mountinfo, behaviour must agree, else inconclusive)",
         "path resolution model: the last mount whose mount point is a prefix of the path serves it (no moves, no partial unmounts); validated against /proc/<pid>/mountinfo of every sandbox",
+        "/proc/<pid>/mountinfo lists mounts in creation order (kernel >= 6.8, here 6.18); on older kernels the table comparison would show up as DRIFT / inconclusive, never as a violation",
         "the sandboxed program has no capabilities (runner/unshare and the container both drop them), so remount attempts are expected to fail with EPERM",
         "a launch that fails inside the mount block on a table the model can build is counted as a breach (the configured mounts are not provided); failures elsewhere are inconclusive",
         "container: link/mask/devnull options explored as 4 combinations (all 8 in the model); network and ipc namespaces are not unshared by the driver",
